@@ -163,6 +163,15 @@ def check_formats(run: Run, scratch, stats):
     # names holding a '>' are read back verbatim by every FASTA parser model (since the repair of iter_fasta_records)
     if not any(isinstance(r["to"]["model"], dict) and r["to"]["model"].get("bytes", {"same": False})["same"] and r["to"]["cls"] == "has-gt" for r in recs):
         raise RuntimeError("vacuous: no has-gt case on which the bytes-parser model equals the oracle")
+    # ragged collections whose FIRST sequence is shorter than a later one by more than a line, and the reverse
+    def _lens(r):
+        return [len(x) for x in r["from"]["seqs"]]
+    for f in ("fasta", "gde", "json"):
+        qs = [r for r in recs if r["from"]["fam"] == "Q" and r["from"]["fmt"] == f]
+        if not any(_lens(r)[0] <= 1 and max(_lens(r)) > 2 * r["from"]["block"] for r in qs) or not any(_lens(r)[0] > 2 * r["from"]["block"] and min(_lens(r)) <= 1 for r in qs):
+            raise RuntimeError(f"vacuous: no ragged {f} collection with the first sequence shortest / longest by more than two lines")
+    if tot.get("default_width_roundtrips", 0) == 0:
+        raise RuntimeError("vacuous: no ragged round trip at the default line width")
     if not any(len("".join(n)) > 9 for r in recs if r["from"]["fmt"] == "phylip" for n in r["from"]["names"]):
         raise RuntimeError("vacuous: no PHYLIP name longer than 9 characters")
     return len(jobs), tot.get("loads", 0) + tot.get("parses", 0)
